@@ -10,7 +10,7 @@
 #include "colvarbias.h"
 #include "colvarproxy_stub.h"
 #include "colvarproxy_stub.cpp"
-static int run(double lower, double x, std::ostringstream &msg) {
+static int run(double lower, double x, std::ostringstream &msg, bool slow_grids = false) {
   colvarproxy_stub *p = new colvarproxy_stub(); p->set_unit_system("real", false); p->colvars->setup_input(); p->colvars->setup_output(); for (int a = 0; a < 2; a++) p->init_atom(a + 1);
   p->set_target_temperature(300.0);
   std::ostringstream conf; conf << "colvarsTrajFrequency 0\ncolvarsRestartFrequency 0\ncolvar {\n  name d\n  lowerBoundary " << lower << "\n  upperBoundary 10.0\n  width 0.5\n  distance {\n    group1 { atomNumbers 1 }\n    group2 { atomNumbers 2 }\n  }\n}\n"
@@ -24,8 +24,8 @@ static int run(double lower, double x, std::ostringstream &msg) {
   delete p; return bad;
 }
 int main(int argc, char **argv) {
-  if (argc < 3) return 2; std::ostringstream msg; int b0 = run(0.0, 10.75, msg), b1 = run(4.0, 1.0, msg);
-  if (b0 < 0 || b1 < 0) { std::cout << "REPLAY: configuration rejected\n"; return 3; }
-  if (b0 || b1) REPLAY_FAIL("well-tempered metadynamics with the variable outside the grid: " << b0 << " (above) and " << b1 << " (below) of 7 steps deviate: the hills are not scaled by exp(-V/(kB dT)); " << msg.str());
-  REPLAY_PASS("well-tempered hill heights follow exp(-V/(kB dT)) with the variable outside the grid on either side");
+  if (argc < 3) return 2; std::ostringstream msg; int b0 = run(0.0, 10.75, msg), b1 = run(4.0, 1.0, msg), b2 = run(0.0, 5.25, msg, true);
+  if (b0 < 0 || b1 < 0 || b2 < 0) { std::cout << "REPLAY: configuration rejected\n"; return 3; }
+  if (b0 || b1 || b2) REPLAY_FAIL("well-tempered metadynamics: " << b0 << " (variable above the grid), " << b1 << " (below) and " << b2 << " (inside, grids updated every 10 steps) of 7 steps deviate: the hills are not scaled by exp(-V/(kB dT)) with V the whole bias at the deposition point; " << msg.str());
+  REPLAY_PASS("well-tempered hill heights follow exp(-V/(kB dT)) with the variable outside the grid on either side and with hills still to be tabulated");
 }
